@@ -56,7 +56,26 @@ def run(chk):
         'Plus natural triggering: histories with the threshold lowered. '
         'distinct_nontrivial = distinct (manager kind, seed, call, k) at '
         'which the request actually fired')
-    chk.mc('MC_Dyn', 'MC_Dyn_protected.cfg' if q else 'MC_Dyn_protected_deep.cfg')
+    if not q:
+        chk.mc('MC_Dyn', 'MC_Dyn_protected_deep.cfg', timeout=7000)
+    # S1 + S2: the quick configuration's graph is dumped; every entry of the model (a decorated
+    # call with the request firing at position f) is run on the real manager with the request
+    # forced at the same position: outcome flags, number of requests and tables compared
+    dot = os.path.join(chk.dir, 'dyn.dot')
+    chk.mc('MC_Dyn', 'MC_Dyn_protected.cfg', extra=['-dump', 'dot', dot], timeout=5000)
+    from harness.drivers import dyn as _dyn
+    gt = [dict(shard=chk.shard('dg_c09_%d' % i), dot=dot, part=i, nparts=tlcrun.NCPU,
+               limit=3000 if q else 14000, seed=chk.seed, first_tid=9000000 + i * 10000)
+          for i in range(tlcrun.NCPU)]
+    sh_graph, gres = chk.generate(_dyn.dyn_graph_task, gt)
+    os.remove(dot)
+    conf = {k: sum(r['conformance'][k] for r in gres)
+            for k in ('entries', 'flags_equal', 'requests_equal', 'tables_equal', 'steps')}
+    conf['first'] = next((r['conformance']['first'] for r in gres if r['conformance']['first']), None)
+    chk.mc_runs[-1]['state_conformance'] = conf
+    chk.mc_runs[-1]['states_by_action'] = gres[0]['kinds']
+    chk.extra['model_paths_replayed'] = sum(r['traces'] for r in gres)
+    chk.log('MC_Dyn conformance: %r' % conf)
     for cfg in ('MC_Dyn_unprotected_retry.cfg', 'MC_Dyn_actual.cfg'):
         r = tlcrun.model_check('MC_Dyn', cfg, 'neg', timeout=600)
         if 'is violated' not in r['out']:
@@ -86,7 +105,7 @@ def run(chk):
                                  steps=80 if q else 200,
                                  nvars_choices=[4, 5, 6], profile='dyn',
                                  tag='nat')
-    chk.validate('TraceBDD', 'TraceBDD.cfg', sh)
+    chk.validate('TraceBDD', 'TraceBDD.cfg', sh + sh_graph)
 
     def wrong_result(tr):
         for i, ev in enumerate(tr['events']):
